@@ -44,7 +44,8 @@ ASSUMPTIONS = [
 ]
 
 MASK64 = (1 << 64) - 1
-POOL = concurrent.futures.ThreadPoolExecutor(max_workers=max(2, min(12, NPROC)))
+POOL = concurrent.futures.ThreadPoolExecutor(max_workers=max(2, min(8, NPROC)))      # one task per program
+POOL2 = concurrent.futures.ThreadPoolExecutor(max_workers=max(2, min(16, NPROC)))    # the two compilers of one program (never waits on POOL)
 
 # ------------------------------------------------------------------ small helpers
 
@@ -80,8 +81,8 @@ def run_prog(ctx, src, tag, which, extra=()):
 
 def both(ctx, src, tag):
     write(ctx, tag + '.c', src)
-    fg = POOL.submit(run_prog, ctx, src, tag, 'g')
-    fc = POOL.submit(run_prog, ctx, src, tag, 'c')
+    fg = POOL2.submit(run_prog, ctx, src, tag, 'g')
+    fc = POOL2.submit(run_prog, ctx, src, tag, 'c')
     return fg.result(), fc.result()
 
 def functions(asm):
@@ -356,7 +357,7 @@ def gen_bf_struct(rng, idx):
 
 ACCESS_FORMS = ['dot', 'arrow', 'nested', 'anon', 'array', 'ptrarith', 'complit', 'global']
 
-def leg_bf_behaviour(ctx, corr, ncases, tagbase='bfb', collect=None):
+def leg_bf_behaviour(ctx, corr, ncases, tagbase='bfb', collect=None, tie=True):
     """returns list of violations (also appended to corr)"""
     rng = ctx.rng
     per_prog = 40
@@ -424,7 +425,7 @@ def leg_bf_behaviour(ctx, corr, ncases, tagbase='bfb', collect=None):
         v = c['value']
         vv = (1 if v != 0 else 0) if c['type'] == 'bool' else v & MASK64
         ops.append(f"{c['type']} {c['w']} {c['o']} {old:x} {vv:x}\n")
-    model = ctx.driver('bfmodel', ''.join(ops)).splitlines()
+    model = ctx.driver('bfmodel', ''.join(ops)).splitlines() if tie else ['unit=0 rax=0 load=0 spec=0'] * len(ops)
     mi = 0
     viol = []
     for (src, cases), ((gok, gout), (cok, cout)) in zip(progs, results):
@@ -456,7 +457,7 @@ def leg_bf_behaviour(ctx, corr, ncases, tagbase='bfb', collect=None):
             spec = spec - (1 << 64) if spec >> 63 else spec
             gr = next((int(l.split('r=')[1]) for l in g if ' r=' in l), None)
             gf = next((int(l.split('=')[1]) for l in g if l.split()[1].startswith(c['field'] + '=')), None)
-            if gr != spec or gf != spec:
+            if tie and (gr != spec or gf != spec):
                 corr.disagreements.append({'kind': 'spec-vs-gcc bit-field value', 'case': c, 'spec': spec, 'gcc_assign_value': gr, 'gcc_readback': gf})
                 return viol
             # model <-> code: the unit's bytes in the image chibicc produced
@@ -474,7 +475,7 @@ def leg_bf_behaviour(ctx, corr, ncases, tagbase='bfb', collect=None):
             # locate the unit inside the dumped object: offset of the Q struct inside the object is found from the image diff
             unit_model = int(mline['unit'], 16).to_bytes(s, 'little').hex()
             base = c['qoff'] + c['off']
-            if cimg[2 * base:2 * (base + s)] != unit_model:
+            if tie and cimg[2 * base:2 * (base + s)] != unit_model:
                 corr.disagreements.append({'kind': 'bfmodel vs executed program', 'case': c, 'model_unit': unit_model, 'image': cimg, 'unit_at': base})
                 return viol
     corr.sample({'bit-field store': {k: allcases[-1][k] for k in ('struct', 'lvalue', 'value', 'pattern', 'form')}})
@@ -558,7 +559,7 @@ def leaf_value(rng, ty):
     s = SCALARS[n][0]
     return str(rng.getrandbits(8 * s - 1)) + ('L' if s == 8 else '')
 
-def leg_aggregates(ctx, corr, ncases, tagbase='agg', collect=None):
+def leg_aggregates(ctx, corr, ncases, tagbase='agg', collect=None, tie=True):
     rng = ctx.rng
     per_prog = 25
     progs = []
@@ -620,8 +621,7 @@ def leg_aggregates(ctx, corr, ncases, tagbase='agg', collect=None):
             elif kind == 'byvalue':
                 src.append(f'static {T} id{ci}({T} x) {{ return x; }}')
                 src.append(f'static void mod{ci}({T} x) {{ x{cpath} = {val}; }}')
-                # `union T t = *q;` (copy-initialisation of a union) is not handled by chibicc's initializer parser (reported; C05): assign instead
-                src.append(f'static {T} mk{ci}({T} *q) {{ {T} t; t = *q; t{cpath} = {val}; return t; }}')
+                src.append(f'static {T} mk{ci}({T} *q) {{ {T} t = *q; t{cpath} = {val}; return t; }}')
                 b = (f'{T} s, d, e[3]; memset(&s, {pat}, sizeof s); memset(&d, {pat ^ 0xff}, sizeof d); memset(e, {pat ^ 0xff}, sizeof e); mod{ci}(s); '
                      f'dump("{k}", &s, sizeof s); d = id{ci}(s); dump("{k}", &d, sizeof d); e[1] = mk{ci}(&s); dump("{k}", e, sizeof e);')
                 c['mask_padding'] = True
@@ -642,7 +642,7 @@ def leg_aggregates(ctx, corr, ncases, tagbase='agg', collect=None):
     results = list(POOL.map(lambda a: both(ctx, a[1][0], f'{tagbase}{a[0]}'), enumerate(progs)))
     allc = [c for _, cs in progs for c in cs]
     drv = [c for c in allc if c.get('driver') and c['driver'][1] is not None]
-    model = ctx.driver('path', ''.join(f'{c["driver"][0]} | {c["driver"][1]}\n' for c in drv)).splitlines() if drv else []
+    model = ctx.driver('path', ''.join(f'{c["driver"][0]} | {c["driver"][1]}\n' for c in drv)).splitlines() if drv and tie else []
     pred = {c['k']: l for c, l in zip(drv, model)}
     viol = []
     for (src, cases), ((gok, gout), (cok, cout)) in zip(progs, results):
@@ -782,7 +782,7 @@ def gen_frame_fn(rng, idx, overaligned_ok):
     # expected offsets in `order`: locals are body reversed (drop alloca slot), params after
     return src, model_in, order, len(locs), f'f{idx}({call_args});', any(l[5] > 16 for l in locs)
 
-def leg_frames(ctx, corr, nfn, tagbase='frm', collect=None):
+def leg_frames(ctx, corr, nfn, tagbase='frm', collect=None, tie=True):
     rng = ctx.rng
     known = {f['id'] for f in load_known().get('findings', []) if f.get('property') == 'C04'}
     over_ok = 'C04-overaligned-auto' in known
@@ -808,7 +808,7 @@ def leg_frames(ctx, corr, nfn, tagbase='frm', collect=None):
             corr.violations.append(v); viol.append(v)
             return viol
         fa = functions(asm)
-        model = ctx.driver('frame', ''.join(f[1] + '\n' for f in fns)).splitlines()
+        model = ctx.driver('frame', ''.join(f[1] + '\n' for f in fns)).splitlines() if tie else []
         for f, ml in zip(fns, model):
             idx = int(f[4][1:f[4].index('(')])
             corr.evaluations += 1
@@ -851,7 +851,8 @@ def leg_frames(ctx, corr, nfn, tagbase='frm', collect=None):
                 return viol
         if not over_ok:
             corr.count('skipped_extended_alignment', 0)
-    corr.sample({'frame': {'function': fns[-1][0][-300:], 'model_input': fns[-1][1], 'model_output': model[-1]}})
+    if tie:
+        corr.sample({'frame': {'function': fns[-1][0][-300:], 'model_input': fns[-1][1], 'model_output': model[-1]}})
     return viol
 
 # ------------------------------------------------------------------ leg E: VLA / alloca
@@ -910,7 +911,7 @@ ALLOCA_HDR = ('#include <stdio.h>\n#include <string.h>\nvoid *alloca(unsigned lo
               'long nest(void *p, long v) { memset(p, 0x77, 8); return v; }\n' +
               ''.join(f'void *pick{k}(void *p, {", ".join("long a%d" % j for j in range(k))}) {{ lastsum = {" + ".join("a%d" % j for j in range(k))}; clobber(1); return p; }}\n' for k in range(3, 9)))
 
-def leg_alloca(ctx, corr, nfn, tagbase='alc', collect=None):
+def leg_alloca(ctx, corr, nfn, tagbase='alc', collect=None, tie=True):
     rng = ctx.rng
     viol = []
     per = 20
@@ -922,13 +923,29 @@ def leg_alloca(ctx, corr, nfn, tagbase='alc', collect=None):
         gsrc = src.replace('void *alloca(unsigned long);\n', '#include <alloca.h>\n')
         write(ctx, f'{tagbase}{base}.c', src)
         write(ctx, f'{tagbase}{base}g.c', gsrc)
-        fg = POOL.submit(run_prog, ctx, gsrc, f'{tagbase}{base}g', 'g')
+        fg = POOL2.submit(run_prog, ctx, gsrc, f'{tagbase}{base}g', 'g')
         (cok, cout) = run_prog(ctx, src, f'{tagbase}{base}', 'c')
         (gok, gout) = fg.result()
         if not gok:
             raise RuntimeError('gcc rejects a generated VLA/alloca program: ' + str(gout)[-400:])
         if not cok:
-            v = {'what': 'VLA / alloca program fails under chibicc', 'input': src, 'expected': gout, 'got': cout}
+            # isolate one function
+            small = None
+            for (fsrc, ops, rec), i in zip(fns, range(base, base + len(fns))):
+                one = ALLOCA_HDR + fsrc + f'int main(void) {{ t{i}(); return 0; }}\n'
+                ok1, out1 = run_prog(ctx, one, f'{tagbase}{base}_one{i}', 'c')
+                if not ok1 or ' ok=1 ' not in (out1[0] if out1 else ''):
+                    small = (one, out1)
+                    break
+            if small is None:
+                for (vsrc, call) in vl:
+                    one = ALLOCA_HDR + vsrc + f'int main(void) {{ {call} return 0; }}\n'
+                    ok1, out1 = run_prog(ctx, one, f'{tagbase}{base}_onev', 'c')
+                    if not ok1 or ' ok=1 ' not in (out1[0] if out1 else ''):
+                        small = (one, out1)
+                        break
+            v = {'what': 'VLA / alloca program crashes or fails under chibicc (blocks or live temporaries corrupted)', 'input': small[0] if small else src,
+                 'expected': 'ok=1 for every function, as under gcc', 'got': small[1] if small else cout}
             corr.violations.append(v); viol.append(v)
             return viol
         asm, err = asm_of(ctx, src, f'{tagbase}{base}s')
@@ -951,6 +968,8 @@ def leg_alloca(ctx, corr, nfn, tagbase='alc', collect=None):
             lines = fa.get(f't{i}', [])
             sub = next((int(re.fullmatch(r'sub \$(\d+), %rsp', l).group(1)) for l in lines if re.fullmatch(r'sub \$(\d+), %rsp', l)), None)
             anchor = next((int(x) for l in lines for x in re.findall(r'^lea (-?\d+)\(%rbp\), %rax$', l)), None)
+            if not tie:
+                continue
             if sub is None or anchor is None:
                 corr.disagreements.append({'kind': 'alloca tie: prologue / anchor not found in the assembly', 'function': fsrc})
                 return viol
@@ -1041,19 +1060,19 @@ def correspond(ctx, corr):
     lap('bfseq')
     if corr.disagreements:
         return
-    leg_bf_behaviour(ctx, corr, 1200 if not T else 16000)
+    leg_bf_behaviour(ctx, corr, 4000 if not T else 40000)
     lap('bf-behaviour')
     if corr.violations or corr.disagreements:
         return
-    leg_aggregates(ctx, corr, 1000 if not T else 12000)
+    leg_aggregates(ctx, corr, 3000 if not T else 30000)
     lap('aggregates')
     if corr.violations or corr.disagreements:
         return
-    leg_frames(ctx, corr, 300 if not T else 4000)
+    leg_frames(ctx, corr, 900 if not T else 9000)
     lap('frames')
     if [v for v in corr.violations if not v.get('known_id')] or corr.disagreements:
         return
-    leg_alloca(ctx, corr, 200 if not T else 2400)
+    leg_alloca(ctx, corr, 600 if not T else 6000)
     lap('alloca')
     leg_known(ctx, corr)
     corr.exhaustive = False
@@ -1065,7 +1084,7 @@ def search(ctx, broken, corr):
     c2 = Corr()
     for leg, n in ((leg_bf_behaviour, 1500), (leg_aggregates, 1000), (leg_frames, 240), (leg_alloca, 160)):
         try:
-            v = leg(ctx, c2, n, tagbase='srch_' + leg.__name__[4:7])
+            v = leg(ctx, c2, n, tagbase='srch_' + leg.__name__[4:7], collect=[], tie=False)
         except Exception as e:
             ctx.notes.append(f'search leg {leg.__name__} raised {type(e).__name__}: {e}')
             continue
